@@ -164,10 +164,10 @@ pub fn property() -> Property {
         pre: None,
         post: None,
         parts: vec![
-            Box::new(Part { name: "path-hash", driver: Driver::Gen(str_strategy, 1_200_000, 4_800_000), prop: prop_path_hash, exhaustive: false }),
-            Box::new(Part { name: "shader-crc", driver: Driver::Gen(str_strategy, 600_000, 2_400_000), prop: prop_shader_crc, exhaustive: false }),
+            Box::new(Part { name: "path-hash", driver: Driver::Gen(str_strategy, 1_200_000, 9_600_000), prop: prop_path_hash, exhaustive: false }),
+            Box::new(Part { name: "shader-crc", driver: Driver::Gen(str_strategy, 600_000, 4_800_000), prop: prop_shader_crc, exhaustive: false }),
             Box::new(Part { name: "sha1-every-length", driver: Driver::Enum(sha_enum), prop: prop_sha1, exhaustive: true }),
-            Box::new(Part { name: "sha1-random", driver: Driver::Gen(sha_strategy, 4_500, 18_000), prop: prop_sha1, exhaustive: false }),
+            Box::new(Part { name: "sha1-random", driver: Driver::Gen(sha_strategy, 4_500, 36_000), prop: prop_sha1, exhaustive: false }),
         ],
     }
 }
